@@ -1,10 +1,8 @@
 import IofloModel.Lemmas.Sked
-import Mathlib.Tactic.Linarith
-import Mathlib.Tactic.Ring
-import Mathlib.Algebra.Order.Field.Rat
 /-!
 Exact-time (`Rat`) lemmas for the scheduler model: the due time of a tasker as a function of its
-earlier runs, as an invariant over the passes of the main loop.
+earlier runs, as an invariant over the passes of the main loop.  Core Lean only (`grind` for the linear arithmetic
+over `Rat`): importing Mathlib here would make every run of the axiom audit load it.
 -/
 set_option linter.unusedSectionVars false
 set_option linter.unusedVariables false
@@ -19,12 +17,21 @@ theorem rat_lt (a b : Rat) : TimeLike.lt a b = decide (a < b) := rfl
 theorem isDue_rat (s : St Rat ω) (e : Entry Rat) : isDue s e = decide (e.retime ≤ s.stamp) := by
   simp only [isDue, rat_lt]
   by_cases h : s.stamp < e.retime
-  · simp [h]
-  · simp [h]; exact not_lt.mp h
+  · simp [h]; exact Rat.not_le.mpr h
+  · simp [h]; exact Rat.not_lt.mp h
 
 /-- `e0.retime` plus the periods read at each earlier run of the tasker: the time its next run is due -/
+def sumPeriods : List (Event Rat) → Rat
+  | [] => 0
+  | e :: es => e.periodAfter + sumPeriods es
+
+theorem sumPeriods_append (a b : List (Event Rat)) : sumPeriods (a ++ b) = sumPeriods a + sumPeriods b := by
+  induction a with
+  | nil => simp [sumPeriods, Rat.zero_add]
+  | cons x xs ih => simp only [List.cons_append, sumPeriods, ih, Rat.add_assoc]
+
 def dueTime (e0 : Entry Rat) (evs : List (Event Rat)) : Rat :=
-  e0.retime + ((evOf e0.id evs).map (·.periodAfter)).sum
+  e0.retime + sumPeriods (evOf e0.id evs)
 
 structure ChainInv (s0 : St Rat ω) (e0 : Entry Rat) (n : Nat) (s : St Rat ω) : Prop where
   nodup : (ids s.ready).Nodup
@@ -71,10 +78,12 @@ theorem chain_inv (E : Env Rat ω) (s0 : St Rat ω) (e0 : Entry Rat)
   | 0, s, h => by
     simp only [stateAt, Option.some.injEq] at h
     subst h
-    refine ⟨hnd, by simp, by simp, rfl, ⟨[], by simp⟩, ?_⟩
+    refine ⟨hnd, ?_, by simp, rfl, ⟨[], by simp⟩, ?_⟩
+    · have : ((0 : Nat) : Rat) = 0 := rfl
+      rw [this, Rat.zero_mul, Rat.add_zero]
     intro _
     refine ⟨e0.period, ?_⟩
-    simp only [dueTime, h0, List.map_nil, List.sum_nil, add_zero]
+    simp only [dueTime, h0, sumPeriods, Rat.add_zero]
     exact he0
   | n+1, s2, h => by
     obtain ⟨s, hs, ht⟩ := stateAt_succ h
@@ -86,7 +95,9 @@ theorem chain_inv (E : Env Rat ω) (s0 : St Rat ω) (e0 : Entry Rat)
     subst hs2
     refine ⟨hnd1, ?_, ?_, ?_, ⟨r ++ N, by show s1.events = _; rw [hN, hr]; simp⟩, ?_⟩
     · show s1.stamp + s1.P = _
-      rw [spec.stamp, spec.P, ih.stamp, ih.P]; push_cast; ring
+      rw [spec.stamp, spec.P, ih.stamp, ih.P]
+      have : ((n + 1 : Nat) : Rat) = (n : Rat) + 1 := by simp
+      rw [this]; grind
     · show s1.tick + 1 = _
       rw [spec.tick, ih.tick]; omega
     · show s1.P = _
@@ -104,9 +115,8 @@ theorem chain_inv (E : Env Rat ω) (s0 : St Rat ω) (e0 : Entry Rat)
         have hev : ev ∈ evOf e0.id s1.events := by rw [h1]; simp
         refine ⟨ev.periodAfter, ?_⟩
         have hdt : dueTime e0 s1.events = dueTime e0 s.events + ev.periodAfter := by
-          simp only [dueTime, h1, List.map_append, List.sum_append, List.map_cons, List.map_nil,
-            List.sum_cons, List.sum_nil]
-          ring
+          simp only [dueTime, h1, sumPeriods_append, sumPeriods]
+          grind
         rw [hdt]; exact h6 (halive2' ev hev)
       · obtain ⟨h1, p, h2⟩ := pd.2 hd
         refine ⟨p, ?_⟩
@@ -150,13 +160,16 @@ theorem chain_count (E : Env Rat ω) (s0 : St Rat ω) (i : Nat)
     omega
 
 theorem sum_const (p : Rat) : ∀ (l : List (Event Rat)), (∀ ev ∈ l, ev.periodAfter = p) →
-    (l.map (·.periodAfter)).sum = l.length * p
-  | [], _ => by simp
+    sumPeriods l = l.length * p
+  | [], _ => by
+    have : ((0 : Nat) : Rat) = 0 := rfl
+    simp [sumPeriods, this, Rat.zero_mul]
   | x :: xs, h => by
     have h1 := h x (by simp)
     have h2 := sum_const p xs (fun ev hev => h ev (List.mem_cons_of_mem _ hev))
-    simp only [List.map_cons, List.sum_cons, List.length_cons, h1, h2]
-    push_cast; ring
+    have : ((xs.length + 1 : Nat) : Rat) = (xs.length : Rat) + 1 := by simp
+    simp only [sumPeriods, List.length_cons, h1, h2, this]
+    grind
 
 /-- with a constant period `p` the due time after `k` runs is `retime + k·p` -/
 theorem dueTime_const (e0 : Entry Rat) (evs : List (Event Rat)) (p : Rat)
